@@ -67,6 +67,29 @@ class Universe:
             self._topo = order
         return self._topo
 
+    def evaluate(self, indep: dict, targets):
+        """From-scratch values of `targets` only (their ancestors are evaluated, nothing else); not memoised."""
+        need = set()
+        stack = list(targets)
+        while stack:
+            n = stack.pop()
+            if n in need:
+                continue
+            need.add(n)
+            stack.extend(self.dag.direct_ancestors[n])
+        vals = {}
+        for n in self._order():
+            if n not in need:
+                continue
+            var = self.dag[n]
+            if n in indep:
+                vals[n] = indep[n]
+            elif type(var).__name__ == "Hyperparameter":
+                vals[n] = var.value
+            else:
+                vals[n] = var.compute(vals)
+        return {t: vals[t] for t in targets}
+
     def expected(self, indep: dict, key=None):
         if key is None:
             key = tdigest(*[indep[k] for k in sorted(indep)])
